@@ -945,14 +945,16 @@ def run(ctx):
             rows.append(({n: v}, False))
 
     gen_sheets = [gen_sheet(rng) for _ in range(120 if thorough else 22)]
-    fixed = corpus.get("sheets", []) + numeric_sheets(full=thorough) + KIND_SHEETS
+    fixed = corpus.get("sheets", []) + KIND_SHEETS
     samples = sample_sheets(20000 if thorough else 10000)
-    sheets = [("corpus", t) for t in fixed] + [("gen", t) for t in gen_sheets] + samples
+    numsheets = numeric_sheets(full=thorough)
+    sheets = [("corpus", t) for t in fixed] + [("num", t) for t in numsheets] + [("gen", t) for t in gen_sheets] + samples
 
     # -- (b) skeleton correspondence on the same sheets
     s_rows = rows[:2] + [rows[i] for i in range(2, len(rows), 4 if thorough else 6)]
     sjobs = [(t, pd, mini) for name, t in sheets
-             for pd, mini in (s_rows if name in ("gen", "corpus") else s_rows[:2] + s_rows[2::5])]
+             for pd, mini in (s_rows if name in ("gen", "corpus") else s_rows[:2] + s_rows[2::5])
+             if name != "num" or not thorough]
     sres = ctx.pool_map(skeleton_case, sjobs, procs=6, chunksize=40)
     s_skipped, s_mism, s_done = 0, [], 0
     if binary:
@@ -974,7 +976,10 @@ def run(ctx):
     # generated and corpus sheets see every row; the (larger) sample sheets the presets and a slice of the array
     step = 6 if thorough else 8
     small = rows[:2] + rows[2 + (ctx.seed % step)::step]
-    jobs = [(t, rows if name in ("gen", "corpus") else small) for name, t in sheets]
+    # the numeric matrix: every row in the quick tier (16 sheets); in the thorough tier (full unit product, ~150
+    # sheets) every row that touches number spelling (omitLeadingZero / useMinified) plus the slice
+    numrows = rows if not thorough else small + [r for r in rows[2:] if r[1] or "omitLeadingZero" in r[0]]
+    jobs = [(t, rows if name in ("gen", "corpus") else numrows if name == "num" else small) for name, t in sheets]
     t0 = time.time()
     eres = ctx.pool_map(e2e_job, jobs, procs=6, chunksize=1)
     evals = sum(len(j[1]) for j in jobs)
@@ -984,7 +989,7 @@ def run(ctx):
         for i, v in res:
             if v[0] == "skip":
                 skipped += 1
-                skip_sheets.add(name if name not in ("gen", "corpus") else t[:60])
+                skip_sheets.add(name if name not in ("gen", "corpus", "num") else t[:60])
             else:
                 fails.append((t, job[1][i], v[1]))
     reported = {}
@@ -1040,11 +1045,13 @@ def run(ctx):
         "distinct_nontrivial": a_nontrivial + s_done + (evals - skipped),
         "rule": "end-to-end: %d preference rows (useDefaults, useMinified, a %d-row pairwise-covering array over all %d "
                 "preferences, random points, every single non-default value) x %d sheets (%d generated over the "
-                "grammar, %d repository sample sheets) = %d oracle evaluations, %d skipped because the DEFAULT "
+                "grammar incl. random numeric shapes, %d numeric-matrix sheets [sign x integer part x fraction x unit], %d value-kind "
+                "sheets [colours, strings, urls, unicode-range, !important], %d repository sample sheets) = %d oracle evaluations, %d skipped because the DEFAULT "
                 "serialisation already does not round-trip; Out.append: %d random item sequences x random "
                 "preferences (%d raise in both, %d with >= 3 output elements); skeleton: %d (sheet, preferences) pairs "
                 "compared, %d out of the skeleton's scope; non-trivial = not skipped / >= 3 output elements" % (
-                    len(rows), len(arr), len(space), len(sheets), len(gen_sheets), len(samples), evals, skipped,
+                    len(rows), len(arr), len(space), len(sheets), len(gen_sheets), len(numsheets), len(KIND_SHEETS),
+                    len(samples), evals, skipped,
                     len(acases), a_crash, a_nontrivial, s_done, s_skipped),
         "samples": [{"prefs": rows[5][0], "sheet": gen_sheets[0][:200]},
                     {"append_case": acases[-1]}, {"skipped_sheets": sorted(skip_sheets)[:8]}],
